@@ -52,8 +52,9 @@ impl Case {
         Ok(Case { property, world, scenario })
     }
 
-    /// Generate the case of run `run_seed` for `property`. Pure function of its arguments.
-    pub fn generate(property: &str, run_seed: u64, tier: &str) -> Case {
+    /// Generate the case of run `run_seed` for `property`. Pure function of its arguments
+    /// (`model`: use this network text instead of a generated one).
+    pub fn generate(property: &str, run_seed: u64, tier: &str, model: Option<&str>) -> Case {
         let rng = Rng::new(run_seed);
         let mut wr = rng.fork("world.cfg");
         let cfg = match property {
@@ -61,7 +62,16 @@ impl Case {
             "C17" => WorldCfg { min_k: 0, max_extra_k: 0, max_ctx: 0 },
             _ => WorldCfg { min_k: wr.range(1, 3) as u16, max_extra_k: 1, max_ctx: 4 },
         };
-        let (world, _) = gen_world(&rng, &cfg);
+        let world = match model {
+            Some(m) => {
+                let mut r = rng.fork("world.on_model");
+                match crate::world::world_on_model(&mut r, &cfg, m.to_string()) {
+                    Some(w) => w,
+                    None => gen_world(&rng, &cfg).0,
+                }
+            }
+            None => gen_world(&rng, &cfg).0,
+        };
         let scenario = match property {
             "C04" => Scenario::C04(c04::generate(&rng, &world)),
             "C10" => Scenario::C10(c10::generate(&rng, &world)),
